@@ -243,6 +243,8 @@ def route_model(ctx, env, st, key, plus_hc=False):
         calls.append('add_multi_coupling')
         if len(term) == 2:
             calls.append('add_coupling')
+            if all(env.site.op_needs_JW(nm) for nm, _ in term):
+                calls.append('add_coupling-opstrJW')      # the explicit op_string='JW' must mean the same
     ok = True
     for call in calls:
         M.onsite_terms = {}
@@ -252,9 +254,12 @@ def route_model(ctx, env, st, key, plus_hc=False):
                 M.add_local_term(1.0, [(nm, [0, i]) for nm, i in term], plus_hc=plus_hc)
             elif call == 'add_multi_coupling':
                 M.add_multi_coupling(1.0, [(nm, [0], i) for nm, i in term], plus_hc=plus_hc)
-            else:
+            elif call == 'add_coupling':
                 (a, i), (b, j) = term
                 M.add_coupling(1.0, i, a, j, b, [0], plus_hc=plus_hc)
+            else:
+                (a, i), (b, j) = term
+                M.add_coupling(1.0, i, a, j, b, [0], op_string='JW', plus_hc=plus_hc)
             got = ('ok', hs.mpo_dense(M.calc_H_MPO()))
         except ValueError as e:
             got = ('ValueError', str(e))
@@ -385,6 +390,18 @@ def fermion_configs(ctx):
     ]
 
 
+def get_env(ctx, envs, K, L, cons):
+    env = envs.get((K, L, cons))
+    if env is None:
+        try:
+            env = envs[(K, L, cons)] = FermEnv(K, L, cons)
+        except Exception as e:  # noqa  the documented site / chain cannot even be built
+            ctx.violation(dict(kind='replay', spec='Fermion', route='site-constructor', clause='exception', K=K),
+                          dict(K=K, L=L, conserve=cons, got='%s: %s' % (type(e).__name__, e)))
+            envs[(K, L, cons)] = env = False
+    return env or None
+
+
 def run_fermion(ctx, futures):
     quick = ctx.tier == 'quick'
     rng = random.Random(ctx.seed * 7919 + 12)
@@ -408,15 +425,8 @@ def run_fermion(ctx, futures):
             act = 'AppendNum' if nm_last in ('N', 'Nu', 'Nd') else ('AppendAnn' if nm_last in ('C', 'Cu') or (nm_last == 'Cd' and K == 2) else 'AppendCre')
             cov[act] = cov.get(act, 0) + 1
             cons = conss[(n + ctx.seed) % len(conss)]
-            env = envs.get((K, L, cons))
+            env = get_env(ctx, envs, K, L, cons)
             if env is None:
-                try:
-                    env = envs[(K, L, cons)] = FermEnv(K, L, cons)
-                except Exception as e:  # noqa  the documented site / chain cannot even be built
-                    ctx.violation(dict(kind='replay', spec='Fermion', route='site-constructor', clause='exception', K=K),
-                                  dict(K=K, L=L, conserve=cons, got='%s: %s' % (type(e).__name__, e)))
-                    envs[(K, L, cons)] = env = False
-            if env is False:
                 continue
             if CORRUPT and n == 40:
                 st['last']['mat'] = [-v for v in st['last']['mat']]       # canary: a corrupted prediction must be rejected
@@ -431,10 +441,9 @@ def run_fermion(ctx, futures):
                     env2 = env
                     if not term_neutral(_tterm(st['term']), K):
                         c2 = (K1_CONS_HC if K == 1 else K2_CONS_HC)[n % 2]
-                        env2 = envs.get((K, L, c2))
-                        if env2 is None:
-                            env2 = envs[(K, L, c2)] = FermEnv(K, L, c2)
-                    route_model(ctx, env2, st, key, plus_hc=True)
+                        env2 = get_env(ctx, envs, K, L, c2)
+                    if env2 is not None:
+                        route_model(ctx, env2, st, key, plus_hc=True)
                 for g in (2, 3):
                     if g <= L and rng.random() < 0.7:
                         route_termlist_mpo(ctx, env, st, key, group=g)
@@ -640,9 +649,22 @@ def replay_site(ctx, T, key):
     return check_table(ctx, site, T, key, 'site', T['order'], T['chg'], T['qnames'], T['qmod'])
 
 
+def make_sites(ctx, tabs, stage):
+    try:
+        return [make_site(T) for T in tabs]
+    except core.MachineryError:
+        raise
+    except Exception as e:  # noqa
+        site_fail(ctx, stage, 'constructor-or-sanity', dict(cls='members', par=[T['cls'] for T in tabs]),
+                  '%s: %s' % (type(e).__name__, e), 'valid sites')
+        return None
+
+
 def replay_common(ctx, tabs, grp, key):
     from tenpy.networks.site import set_common_charges
-    sites = [make_site(T) for T in tabs]
+    sites = make_sites(ctx, tabs, 'common')
+    if sites is None:
+        return False
     sig_extra = dict(pol=grp['pol'])
     ctx.case(('common', key), action='Sites.set_common_charges')
     try:
@@ -682,7 +704,9 @@ def _canon(sparse):
 
 def replay_group(ctx, tabs, grp, key):
     from tenpy.networks.site import set_common_charges, GroupedSite, kron
-    sites = [make_site(T) for T in tabs]
+    sites = make_sites(ctx, tabs, 'group')
+    if sites is None:
+        return False
     kind, pol = grp['kind'], grp['pol']
     sig_extra = dict(kind_=kind, pol=pol, n=len(tabs))
     G = dict(cls='GroupedSite', par=[[T['cls'], T['par']] for T in tabs], cons=[T['cons'] for T in tabs])
@@ -911,7 +935,10 @@ def check(ctx):
             run_sites(ctx, fs)
         if ff is not None:
             run_fermion(ctx, ff)
-    ctx.exhaustive = True
+    ctx.exhaustive = ctx.tier != 'quick'
+    ctx.notes['replay_sampling'] = ('every TLC state is model-checked and replayed through the cheap routes (site tables; '
+                                    'order_combine_term/handle_JW); the expensive routes (MPO, CouplingModel, MPS, GroupedSite chains) and, '
+                                    'in the quick tier, the groupings are replayed for a VERIF_SEED-chosen share')
 
 
 if __name__ == '__main__':
